@@ -1,7 +1,8 @@
 (* C07 -- Evaluation is promptly interruptible and interruption leaves state
    sane.  (a) poll skeletons of the long loops (coq/Eval/Cost.v): the gap
-   between polls is linear in the operand lengths for the polled loops and
-   unbounded in the input size for the loops without a poll; (b) the
+   between polls is linear in the operand lengths for the polled loops
+   (including the date, shift and distribution loops repaired in 30274a2,
+   a55ff29, f8353e2) and unbounded in the input size for the parser; (b) the
    evaluator model (coq/Eval/Calc.v) run with the interrupt firing at poll k.
    Real time is the runtime's: these are statements about step counts.
    Property theorems only; each closed by [exact]. *)
@@ -54,27 +55,71 @@ Theorem C07_polls_mul : forall la lb, polls (mul_trace la lb) = lb.
 Proof. exact polls_skeleton_mul. Qed.
 Print Assumptions C07_polls_mul.
 
-(* ---------------- (a) loops without a poll --------------------------- *)
-(* "the time between successive checks stays bounded for every input" fails
-   for the skeletons of these loops: for every quadratic bound in the size of
-   the input there is an input whose gap exceeds it. *)
+(* ---------------- (a) loops polled since the repairs ------------------ *)
+(* date +/- n days | weeks | months | years (30274a2), a << n (a55ff29) and
+   arithmetic on distributions (f8353e2) now poll in their loops: the gap is
+   a constant, resp. the length of the result, resp. the number of outcomes *)
 
-Theorem C07_gap_date_days : forall n, gap (date_days_trace n) = n.
-Proof. exact gap_date_days_lemma. Qed.
-Print Assumptions C07_gap_date_days.
+Theorem C07_gap_bound_date_steps : forall n step, gap (date_steps_trace n step) <= step.
+Proof. exact gap_bound_date_steps_lemma. Qed.
+Print Assumptions C07_gap_bound_date_steps.
 
-Theorem C07_gap_bounded_date_refuted : forall c, exists n, quad c (N.size n) < gap (date_days_trace n).
-Proof. exact gap_unbounded_date_lemma. Qed.
-Print Assumptions C07_gap_bounded_date_refuted.
+Theorem C07_gap_bound_date_days : forall n, gap (date_days_trace n) <= 1.
+Proof. exact gap_bound_date_days_lemma. Qed.
+Print Assumptions C07_gap_bound_date_days.
 
-Theorem C07_gap_bounded_lshift_n_refuted : forall c, exists n, quad c (N.size n) < gap (lshift_n_trace 1 n).
-Proof. exact gap_unbounded_lshift_lemma. Qed.
-Print Assumptions C07_gap_bounded_lshift_n_refuted.
+Theorem C07_gap_bound_date_months : forall n, gap (date_months_trace n) <= 1.
+Proof. exact gap_bound_date_months_lemma. Qed.
+Print Assumptions C07_gap_bound_date_months.
 
-Theorem C07_gap_bounded_dist_bop_refuted : forall c, exists faces, quad c (N.size faces) < gap (dist_bop_trace faces faces).
-Proof. exact gap_unbounded_dist_lemma. Qed.
-Print Assumptions C07_gap_bounded_dist_bop_refuted.
+Theorem C07_gap_bound_lshift_n : forall l0 n, 1 <= l0 -> gap (lshift_n_trace l0 n) <= l0 + n / 64.
+Proof. exact gap_bound_lshift_n_lemma. Qed.
+Print Assumptions C07_gap_bound_lshift_n.
 
+Theorem C07_gap_bound_dist_bop : forall la lb, gap (dist_bop_trace la lb) <= la * lb + 1.
+Proof. exact gap_bound_dist_bop_lemma. Qed.
+Print Assumptions C07_gap_bound_dist_bop.
+
+(* the polls these loops make (the check alarms if the implementation makes fewer) *)
+Theorem C07_polls_date_steps : forall n step, polls (date_steps_trace n step) = n.
+Proof. exact polls_date_steps_lemma. Qed.
+Print Assumptions C07_polls_date_steps.
+
+Theorem C07_polls_date_months : forall n, polls (date_months_trace n) = date_months_polls_of n.
+Proof. exact polls_date_months_lemma. Qed.
+Print Assumptions C07_polls_date_months.
+
+Theorem C07_polls_min_lshift_n : forall l0 n, lshift_n_insert_polls_of n <= polls (lshift_n_trace l0 n).
+Proof. exact polls_lshift_n_lemma. Qed.
+Print Assumptions C07_polls_min_lshift_n.
+
+Theorem C07_polls_dist_bop : forall la lb, polls (dist_bop_trace la lb) = dist_bop_polls la lb.
+Proof. exact polls_dist_bop_lemma. Qed.
+Print Assumptions C07_polls_dist_bop.
+
+(* ---------------- (a) the same loops before the repairs, and the parser - *)
+(* "the time between successive checks stays bounded for every input" failed
+   for the skeletons of the loops as they were (repaired defects, kept as
+   documentation) and still fails for the parser: for every quadratic bound
+   in the size of the input there is an input whose gap exceeds it. *)
+
+Theorem C07_gap_date_days_old : forall n, gap (date_days_trace_old n) = n.
+Proof. exact gap_date_days_old_lemma. Qed.
+Print Assumptions C07_gap_date_days_old.
+
+Theorem C07_gap_bounded_date_old_refuted : forall c, exists n, quad c (N.size n) < gap (date_days_trace_old n).
+Proof. exact gap_unbounded_date_old_lemma. Qed.
+Print Assumptions C07_gap_bounded_date_old_refuted.
+
+Theorem C07_gap_bounded_lshift_n_old_refuted : forall c, exists n, quad c (N.size n) < gap (lshift_n_trace_old 1 n).
+Proof. exact gap_unbounded_lshift_old_lemma. Qed.
+Print Assumptions C07_gap_bounded_lshift_n_old_refuted.
+
+Theorem C07_gap_bounded_dist_bop_old_refuted : forall c, exists faces, quad c (N.size faces) < gap (dist_bop_trace_old faces faces).
+Proof. exact gap_unbounded_dist_old_lemma. Qed.
+Print Assumptions C07_gap_bounded_dist_bop_old_refuted.
+
+(* open: the parser *)
 Theorem C07_gap_bounded_parse_refuted : forall c, exists d, quad c (juxt_tokens d) < gap (parse_juxt_trace d).
 Proof. exact gap_unbounded_parse_lemma. Qed.
 Print Assumptions C07_gap_bounded_parse_refuted.
@@ -161,8 +206,12 @@ Proof. vm_compute. repeat split. Qed.
 
 Example C07_skeleton_examples :
   gap (mul_trace 3 2) = 6 /\ polls (mul_trace 3 2) = 2
-  /\ gap (date_days_trace 1000) = 1000 /\ polls (date_days_trace 1000) = 0
-  /\ gap (lshift_n_trace 1 640) = 55 /\ polls (lshift_n_trace 1 640) = 0
+  /\ gap (date_days_trace 1000) = 1 /\ polls (date_days_trace 1000) = 1000
+  /\ gap (date_days_trace_old 1000) = 1000 /\ polls (date_days_trace_old 1000) = 0
+  /\ gap (lshift_n_trace 1 640) = 10 /\ polls (lshift_n_trace 1 640) = 10
+  /\ gap (lshift_n_trace_old 1 640) = 55 /\ polls (lshift_n_trace_old 1 640) = 0
+  /\ gap (dist_bop_trace 6 6) = 37 /\ polls (dist_bop_trace 6 6) = 36
+  /\ new_die_polls_of 3 6 = 122 /\ date_months_polls_of 1201 = 101
   /\ gap (parse_juxt_trace 10) = 2047
   /\ pow_polls_of 1 (2 ^ 63) = 64 /\ pow_polls_of 3 200 = 21
   /\ factorial_polls_of 20 = 19 /\ factorial_polls_of 25 = 33.
